@@ -128,9 +128,8 @@ func (c *FnCtx) libResultFacts(st *State, name string, v Val) {
 	switch name {
 	case "fmt.Errorf", "errors.New", "status.Errorf", "status.Error", "protowire.ParseError":
 		if i, ok := v.(VIface); ok {
-			c.assert(lt("0", i.Typ))
-			// not one of the sentinel errors
-			c.assert(lt(i.Typ, "900000"))
+			// a non-nil error whose dynamic type is neither a sentinel nor a type constructed in this package
+			c.assert(and(lt("800000", i.Typ), lt(i.Typ, "900000")))
 			c.assumptions["library contract: "+name+" returns a non-nil error distinct from the sentinel errors"] = true
 		}
 	}
@@ -166,6 +165,12 @@ func (c *FnCtx) callContract(st *State, in ssa.Instruction, cc *ssa.CallCommon, 
 	// callee ghosts evaluated at call entry
 	for _, g := range fc.Ghosts {
 		env.vars[g.Name] = env.eval(g.E)
+	}
+	// ghost variables set inside the callee are existential witnesses here
+	for _, cl := range fc.Clauses {
+		if cl.Kind == "ghostat" {
+			env.vars[cl.Name] = VInt{c.declare("cg."+cl.Name, sInt)}
+		}
 	}
 	k := 0
 	for _, cl := range fc.Clauses {
@@ -306,7 +311,7 @@ func (c *FnCtx) execAppend(st *State, in ssa.Instruction, s VSlice, more Val) Va
 	fits := c.define("fits", sBool, le(newLen, s.Cap))
 	fresh := c.allocRef(st, "grow")
 	newCap := c.declare("acap", sInt)
-	c.assert(le(newLen, newCap))
+	c.assume(st, and(le(newLen, newCap), le(newCap, maxInt)))
 	base := c.define("abase", sInt, ite(fits, s.Base, fresh))
 	off := c.define("aoff", sInt, ite(fits, s.Off, "0"))
 	cp := c.define("acap2", sInt, ite(fits, s.Cap, newCap))
@@ -453,6 +458,24 @@ func (e *Engine) ghostCall(env *Env, x ECall) (Val, bool) {
 		if s, ok := env.eval(x.Args[0]).(VStr); ok {
 			e.needVarint = true
 			return VInt{app("varintval", s.Arr, s.Off, env.evalInt(x.Args[1]))}, true
+		}
+	case "wrcalls": // number of Write calls made on w
+		id := readerID(env.eval(x.Args[0]))
+		return VInt{sel(c.heapGet(env.st, "G$wr.calls", arrSort(sInt)), id)}, true
+	case "errtype": // dynamic type test: errtype(err, "*pkg.Type")
+		iv, ok := env.eval(x.Args[0]).(VIface)
+		lit, ok2 := x.Args[1].(EStr)
+		if ok && ok2 {
+			t := e.lookupType(lit.V)
+			if t == nil {
+				sfail("errtype: unknown type %s", lit.V)
+			}
+			return VBool{eq(iv.Typ, fmt.Sprint(e.typeID(t)))}, true
+		}
+	case "raw": // the whole backing array of a byte slice, indexed absolutely
+		if s, ok := env.eval(x.Args[0]).(VSlice); ok {
+			m := c.heapGet(env.st, "E$uint8", mapSort(2, sInt))
+			return VStr{sel(m, s.Base), "0", "0"}, true
 		}
 	case "str": // view a byte slice as a string value (snapshot)
 		if s, ok := env.eval(x.Args[0]).(VSlice); ok {
